@@ -306,6 +306,11 @@ def elemPtr0 (c : Cont) : Ptr := c.elems.headD .null
 /-- `SparseLayoutId` of a matrix kind: 0 = lt_csr (CSR, BCSR), 1 = lt_banded -/
 def layKind (kind : Nat) : Nat := if kind = 4 then 1 else 0
 
+/-- the arrays a (possibly absent) layout object holds -/
+def layoutInds : Option Layout → List Ptr
+  | none => []
+  | some o => o.inds
+
 /-- a layout object can only be assigned a layout of its own type -/
 def layCompat (old : Option Layout) (lk it : Nat) : Bool :=
   match old with
@@ -483,9 +488,13 @@ def step (s : State) (op : Op) : Except Abort State :=
         else match incrAll s.pool ca.inds with
           | .error e => .error e
           | .ok p1 =>
-            -- move assignment onto a live layout does NOT release the arrays the layout held before
-            .ok ({ s with pool := p1 }.setLay l
-              (some { lk := layKind ca.kind, it := ca.it, inds := ca.inds, indsSize := ca.indsSize, sidx := ca.sidx }))
+            -- `L = m.layout()`: the temporary is built first (counters increased), then the move assignment
+            -- releases the arrays the live layout object held before (a fresh object holds none)
+            match releaseAll p1 (layoutInds (s.lay l)) with
+            | .error e => .error e
+            | .ok p2 =>
+              .ok ({ s with pool := p2 }.setLay l
+                (some { lk := layKind ca.kind, it := ca.it, inds := ca.inds, indsSize := ca.indsSize, sidx := ca.sidx }))
   | .mlay a l kind dt fill =>
     match s.lay l with
     | none => .error .badop
